@@ -38,6 +38,12 @@ def cases(seed, tier):
                         xa[ns + "oomd_kill"] = str(rng.choice([0, 3, 1000, 2**31 - 20000]))
                     if rng.random() < 0.3:
                         xa[ns + "oomd_kill_uuid"] = "stale"
+            if rng.random() < 0.12:
+                # user.* attributes of a delegated cgroup are writable by its owner: whatever text is in them, the kill goes
+                # ahead and oomd survives (what the counters are then set to is not judged)
+                xa = cgs[rel].setdefault("xattrs", {})
+                xa[rng.choice(["user.oomd_ooms", "user.oomd_kill", "trusted.oomd_ooms", "trusted.oomd_kill"])] = rng.choice(
+                    ["abc", "12x", " 7", "99999999999999999999", "-", "1.5", "0x10", "2147483647", "-2147483648"])
         pats = KG.patterns_for(rng, info)
         args = KG.kill_args(rng, plugin, pats, dry=rng.random() < 0.1)
         if rng.random() < 0.15:
@@ -82,6 +88,14 @@ def cases(seed, tier):
         scn = KG.base_scn(cid, cgs, KG.kill_config(plugin, args, extra, hooks=hooks, rs_name=names[0], group=names[1]), ticks=ticks, kill=kill, linger=linger, hooks=hspec)
         if rng.random() < 0.15:
             scn["xattr_fail"] = rng.choice(["EPERM", "ENOTSUP"])
+        if rng.random() < 0.12 and len(ticks) >= 3:
+            # another kill plugin comes into being while the daemon runs (a drop-in brings one along; it matches nothing, so it
+            # only ever answers CONTINUE): the kills counted so far stay counted
+            scn["config"]["rulesets"][0]["drop-in"] = {"actions": True}
+            late = {"name": rng.choice(KG.PLUGINS), "args": {"cgroup": "no-such-slice/*"}}
+            if late["name"] == "kill_by_pressure":
+                late["args"]["resource"] = "io"
+            ticks[rng.randint(1, len(ticks) - 1)]["dropins"] = [{"op": "add", "tag": "late.json", "config": {"rulesets": [{"name": names[0], "actions": [late]}]}}]
         if not args.get("kernelkill") and rng.random() < 0.15:
             # transient cgroups: the leaf is rmdir'ed by its manager the moment its last process was signalled, i.e. between two
             # passes of one kill attempt; the completion xattr cannot be written any more, the deed is accounted for all the same
@@ -183,6 +197,12 @@ def judge(case, results):
                             if e["ret"] == 0:
                                 st[ns + suffix] = e["val"]
                         continue
+                    if not re.fullmatch(r"\d{1,9}", st.get(ns + suffix) or "0"):
+                        v.count("dontcare_garbage_counter_xattr")
+                        for e in evs:
+                            if e["ret"] == 0:
+                                st[ns + suffix] = e["val"]
+                        continue
                     old = to_int(st.get(ns + suffix))
                     if len(evs) != 1:
                         v.bad("xattr-count", suffix, "tick %d victim %s: %d writes of %s" % (inv.tick, a.victim, len(evs), ns + suffix))
@@ -222,6 +242,7 @@ def judge(case, results):
     got = res.end.get("stats", {}).get("oomd.kills")
     if got != expect_kills:
         v.bad("kills-counter", "dry" if dry else "wet", "oomd.kills=%s, invocations that signalled a process: %d" % (got, expect_kills))
+    v.count("kill_plugins_created_at_run_time", sum(1 for e in res.events if e.get("ev") == "dropin_result" and e.get("ok")))
     v.count("signalling_invocations", good)
     v.count("non_signalling_invocations", bad_)
     v.count("plugin:" + plugin)
